@@ -582,3 +582,51 @@ func (w *World) testOnlyExempt(key string, seen map[string]bool) bool {
 	}
 	return len(w.callers[key]) > 0
 }
+
+// guardedTouchers: keys of the functions (non-test code) that select a guarded field.
+func (w *World) guardedTouchers() []string {
+	var out []string
+	var paths []string
+	for p := range w.Pkgs {
+		paths = append(paths, p)
+	}
+	sort.Strings(paths)
+	for _, path := range paths {
+		p := w.Pkgs[path]
+		for _, f := range p.Syntax {
+			for _, d := range f.Decls {
+				fd, ok := d.(*ast.FuncDecl)
+				if !ok || fd.Body == nil {
+					continue
+				}
+				obj, _ := p.TypesInfo.Defs[fd.Name].(*types.Func)
+				if obj == nil {
+					continue
+				}
+				touches := false
+				ast.Inspect(fd.Body, func(nd ast.Node) bool {
+					sel, ok := nd.(*ast.SelectorExpr)
+					if !ok {
+						return true
+					}
+					s := p.TypesInfo.Selections[sel]
+					if s == nil || s.Kind() != types.FieldVal {
+						return true
+					}
+					recv := s.Recv()
+					if pt, ok := recv.Underlying().(*types.Pointer); ok {
+						recv = pt.Elem()
+					}
+					if w.Guarded[qualName(recv)+"."+sel.Sel.Name] {
+						touches = true
+					}
+					return true
+				})
+				if touches {
+					out = append(out, obj.FullName())
+				}
+			}
+		}
+	}
+	return out
+}
